@@ -170,6 +170,8 @@ func (in *Interp) tpanic(kind, msg string) {
 	panic(targetPanic{v: Iface{T: types.Typ[types.String], V: mkStr(msg)}, kind: kind, pos: in.posStr(in.curPos)})
 }
 
+const maxCallDepth = 3000
+
 // brVal forks on a Bool value.
 func (in *Interp) brVal(b Bool) bool {
 	if b.S == nil {
@@ -599,8 +601,11 @@ func (in *Interp) callSSA(caller *frame, pos token.Pos, fn *ssa.Function, args [
 	}
 	in.funcsEntered[name]++
 	in.depth++
-	if in.depth > 400 {
-		panic(pathEnd{"unwind: recursion depth in " + name})
+	if in.depth > maxCallDepth {
+		// unbounded recursion in the code under test: natively a fatal "stack overflow" (not recoverable);
+		// reported as a panic finding and confirmed by the native replay
+		in.recordFinding("panic", "no stack overflow (unbounded recursion)", fmt.Sprintf("call depth exceeds %d frames in %s", maxCallDepth, name))
+		panic(pathEnd{"stack-overflow"})
 	}
 	defer func() { in.depth-- }()
 	fr := &frame{in: in, caller: caller, fn: fn}
